@@ -19,7 +19,7 @@ CHECKS.update({
              note="Trusted: the model transformations in checks/c13.py and vlib.model.rename_param (scoping of member-level parameters).", ref="3/C13"),
 })
 CHECKS.update({
- 'C07': dict(tech="Hypothesis token-level corruption of generated files + accept=>token-accounting round trip, must-reject cases for explicit validation rules, fault-injection style end-to-end runs of both generators and scripts against pre-seeded output",
+ 'C07': dict(tech="Hypothesis token-level corruption of generated files + accept=>token-accounting round trip, must-reject cases for explicit parser and instantiator validation rules (the latter must fail in every generator entry point), fault-injection style end-to-end runs of both generators and scripts against pre-seeded output",
              text="Generated-input search: 1k/24k corrupted files; an accepted input must have every primitive token accounted for in the tree and re-parse to itself; inputs violating an explicit validation rule must be rejected; a failing generator/script run must leave a pre-seeded output location byte-identical. Cannot show absence; termination is observed with a 300 s guard only.",
              note="Trusted: vlib.reader.lex (primitive lexer), the two normalisations (std::pair, enum class) applied to both sides, vlib.project/render. atheris byte-level fuzzing is not part of the registered commands.", ref="3/C07"),
  'C12': dict(tech="Hypothesis metamorphic testing over layouts: per-gap fillers (whitespace, hostile C/C++ comments, abutting tokens); equality of parse projection and byte-identical generator outputs",
@@ -39,16 +39,16 @@ CHECKS.update({
 })
 CHECKS.update({
  'C14': dict(tech="Hypothesis-generated (input, configuration, history, parallel job set) + differential oracle against an in-process reference run (byte equality of every output) + audit-hook file-access whitelist observed in child processes",
-             text="Generated configurations (hash seed, cwd, locale x UTF-8 mode, earlier wrap_file calls on one PybindWrapper, stale previous output, repetition, 1/3/5 concurrent script/API processes in one build directory): outputs byte-identical to the reference; only requested files written, only inputs/templates/interpreter files read. Parallel runs sample OS schedules (the harness does not own the scheduler).",
+             text="Generated configurations (hash seed, cwd, locale x UTF-8 mode, earlier wrap_file calls on the same and on other PybindWrapper objects, lists of further sub-module files, stale previous output, repetition, 1/3/5 concurrent script/API processes in one build directory): outputs byte-identical to the reference; only requested files written, only inputs/templates/interpreter files read. Parallel runs sample OS schedules (the harness does not own the scheduler).",
              note="Trusted: vlib/c14_driver.py (sys.addaudithook in the child), the read whitelist in checks/c14.py (interpreter prefixes, gtwrap package, inputs).", ref="3/C14"),
  'C16': dict(tech="Hypothesis-generated file splits, tails and option sets + composition oracles (main/sub-module structure and body equality, MATLAB list == concatenation) + subprocess differential script vs library API",
-             text="Generated-input search: module split into 1..4 files with adversarial final characters; main TU declares/invokes one initialiser per part in order; every part's TU equals wrapping its text alone; MATLAB wrap(list) == wrap(joined); scripts byte-identical to the library API (1 in 8 cases). Linking/importing the parts is left to C04.",
+             text="Generated-input search: module split into 1..4 files with adversarial final characters; main TU declares/invokes one initialiser per part in order; every part's TU equals wrapping its text alone; MATLAB wrap(list) == wrap(joined); scripts byte-identical to the library API (1 in 8 cases, both spellings of the top namespace); 1 in 24 cases is an executable module cut into 2..4 TUs that are compiled separately, linked, imported and driven by C04's call plan.",
              note="Trusted: section markers in the harness's module template (vlib.wraps.PYBIND_TPL), which is 'the user-supplied module template'.", ref="3/C16"),
 })
 CHECKS.update({
  'C17': dict(tech="Hypothesis-generated interfaces + Doxygen XML trees (faults, Unicode texts) + three oracles: marker-based reference selection, independent C++ string-literal decoder vs extracted text, literal-deletion isolation",
              text="Generated-input search: selection (overloads by parameter names, optional parameters, k-th overload), escaping (decoded literal == extracted text for all XML-1.0 Unicode incl. quotes, backslashes, C1 controls, NBSP, astral), empty docstring for missing/partial/ill-formed XML without an error, and identity of the rest of the TU.",
-             note="Trusted: the C++ literal decoder in checks/c17.py (greedy \\x, 3-digit octal, UCNs), vlib.pyscan. A g++ compile of the literals is not part of the registered commands.", ref="3/C17"),
+             note="Trusted: the C++ literal decoder in checks/c17.py (greedy \\x, 3-digit octal, UCNs), vlib.pyscan. Every 4th case also compiles its literals with g++ -std=c++17 and requires the compiler's bytes to equal the decoder's (disagreement = harness error).", ref="3/C17"),
 })
 CHECKS.update({
  'C05': dict(tech="Hypothesis model-based generation + structural oracle on the scanned toolbox: id <-> case <-> routine bijection, contiguity, role/class/member/overload agreement between .m call sites and MEX routines, id count from the model",
@@ -78,7 +78,7 @@ CHECKS.update({
 })
 CHECKS.update({
  'C11': dict(tech="Hypothesis-generated gateways x call histories (model-based / stateful): the generated MEX source is compiled unmodified with the real matlab.h on a mock MEX runtime and an instrumented mock library, and driven by a MATLAB-object emulator that executes the generated guards and id protocol; trace, results, collector sizes and live-object counts vs a model of live handles after every step and after unload",
-             text="Generated programs and histories are built and run: 96 (quick) / 768 (thorough) gateways with histories of 4-26 calls (construct, method of class or ancestor, static, function, property get/set, object returned from C++, delete, unload). A crash (double free) fails the case. Cannot show absence; two handles on one C++ object and the RTTI up-cast branch are not reached (stated in evidence assumptions).",
+             text="Generated programs and histories are built and run: 96 (quick) / 768 (thorough) gateways with histories of 4-26 calls (construct, method of class or ancestor, static, function, property get/set, object returned from C++, delete, unload). A crash (double free) fails the case. Callables taking and returning a shared pointer of one class hand back their argument, so two handles on one C++ object occur (the model counts distinct objects). Cannot show absence; the RTTI up-cast branch is not reached (stated in evidence assumptions).",
              note="Trusted: vlib/mexmock (mock MEX API), vlib.matlab_emu (MATLAB object semantics: constructor chains, method inheritance, delete order), vlib.cxxmock, vlib.matscan. No AddressSanitizer.", ref="3/C11"),
 })
 PENDING = {}
